@@ -2,11 +2,13 @@ package main
 
 import (
 	"bytes"
+	"context"
 	"fmt"
 	"io"
 	"os"
 	"os/exec"
 	"runtime"
+	"runtime/pprof"
 	"strings"
 	"sync"
 	"sync/atomic"
@@ -88,6 +90,21 @@ func racepassMain(tier string) {
 			return sb.String()
 		},
 		func(id int) string {
+			// Parse; Reset; the owner refills the object (Clone destination) while parsing on
+			pj, err := simdjson.Parse([]byte(small[id%3]), nil)
+			if err != nil {
+				return "ERR"
+			}
+			pj.Reset()
+			src, err := simdjson.Parse(big((id+1)%5), nil)
+			if err != nil {
+				return "ERR"
+			}
+			c := src.Clone(pj)
+			other, perr := simdjson.Parse([]byte(small[(id+1)%3]), nil)
+			return fmt.Sprintf("%016x %s %016x", tapeHash(c), render(other, perr), tapeHash(c))
+		},
+		func(id int) string {
 			// ParseNDStream with recycling
 			var in bytes.Buffer
 			for i := 0; i < 40; i++ {
@@ -152,7 +169,18 @@ func racepassMain(tier string) {
 				}
 			}(g)
 		}
-		wg.Wait()
+		// every goroutine works on its own objects, so all of them return shortly after the
+		// deadline; if they do not, they are blocked on something they share
+		finished := make(chan struct{})
+		go func() { wg.Wait(); close(finished) }()
+		select {
+		case <-finished:
+		case <-time.After(dur + 90*time.Second):
+			fmt.Printf("racepass-mismatch (%s): goroutines working on their own objects are still blocked 90 s after the pass ended (deadlock on shared state); goroutine dump follows\n", label)
+			pprof.Lookup("goroutine").WriteTo(os.Stdout, 1)
+			fmt.Printf("racepass: %d goroutine-programs run, %d mismatches\n", iters.Load(), mism.Load()+1)
+			os.Exit(1)
+		}
 	}
 	if hasAVX512 {
 		// both stage-1 kernels: the selection is process-wide CPU-feature state, switched
@@ -204,8 +232,16 @@ func racepassColdParent(small []string, render func(*simdjson.ParsedJson, error)
 		n = 40
 	}
 	for i := 0; i < n; i++ {
-		out, _ := exec.Command(os.Args[0], "racepass-cold", f.Name()).CombinedOutput()
+		ctx, cancel := context.WithTimeout(context.Background(), 120*time.Second)
+		out, _ := exec.CommandContext(ctx, os.Args[0], "racepass-cold", f.Name()).CombinedOutput()
+		timedOut := ctx.Err() != nil
+		cancel()
 		text := string(out)
+		if timedOut {
+			mism++
+			fmt.Printf("racepass-mismatch: cold-start child did not finish within 120 s (goroutines blocked on shared state): %.600s\n", text)
+			continue
+		}
 		if strings.Contains(text, "WARNING: DATA RACE") {
 			fmt.Println(text) // counted by the driver
 		}
